@@ -57,6 +57,13 @@ CLAIMED = {
                   "GameData::extract are compared by TLC with Extract(descriptor).",
              note="Trusts TLC, gen/sqpack.py, Python zlib for building inputs; inflate correctness itself is out of scope.",
              ref="5 C02"),
+ "C05": dict(cat="model_checking", tech="TLC round trip of Excel.tla on every 1..2-column schema + TLC trace validation of real reads on the same bytes (direct and through a synthetic archive)",
+             text="Excel.tla is the byte-level addressing (row index, sub-row stride, per-type width, packed-bool bit, string heap) with its own writer; TLC "
+                  "checks ReadRow(Encode(rows)) = rows for all 18744 bounded schemas. The same schemas, random sheets and sheets stored in synthetic "
+                  "archives are written by an independent Python encoder, decoded by the real EXH/EXD/GameData code, and TLC decodes the same bytes "
+                  "and compares every cell, unknown ids, sheet names, header/page location and file names.",
+             note="Trusts TLC, gen/excel.py, gen/sqpack.py; one known finding (single sub-row rows) is listed, not suppressed for other inputs.",
+             ref="5 C05"),
 }
 REASON_PENDING = "check not built yet in this session (see DESIGN.md section 5); will be claimed when its trace specification exists"
 
